@@ -688,3 +688,294 @@ func (d *Driver) judgeC11() {
 		}
 	}
 }
+
+// ---------- C10: priority takeover only strictly upward, and prompt ----------
+
+// judgeC10safety: every replacement of a live record written by somebody else needs takeover
+// enabled and a strictly higher priority than the one stored in the replaced record.
+func (d *Driver) judgeC10safety() {
+	for _, op := range d.h.Ops {
+		if op.Inst < 0 || !op.Applied || !op.OK || op.Kind != "update" || op.PrevLive == nil {
+			continue
+		}
+		prev := op.PrevLive
+		if prev.Writer == op.Inst && prev.Gen == op.Gen {
+			continue // refresh of its own record
+		}
+		in := d.inst(op.Inst)
+		d.judgedInc("C10")
+		prevPrio := 0
+		if prev.P.OK {
+			prevPrio = prev.P.Prio
+		}
+		switch {
+		case !in.cfg.Takeover:
+			d.h.violate("C10", "replacement-with-takeover-disabled/"+callerSig(op.Caller), fmt.Sprintf("i%d (takeover disabled, prio %d) replaced the live record seq=%d of i%d (prio %d)", op.Inst, in.cfg.Prio, prev.Seq, prev.Writer, prevPrio), op.TApply, op.SApply)
+		case in.cfg.Prio <= prevPrio:
+			d.h.violate("C10", fmt.Sprintf("replacement-without-strictly-higher-priority/equal=%v/%s", in.cfg.Prio == prevPrio, callerSig(op.Caller)), fmt.Sprintf("i%d (prio %d) replaced the live record seq=%d of i%d (stored prio %d)", op.Inst, in.cfg.Prio, prev.Seq, prev.Writer, prevPrio), op.TApply, op.SApply)
+		}
+	}
+}
+
+// judgeC10prompt: fault-free family with latency <= H/10.
+func (d *Driver) judgeC10prompt() {
+	p := d.plan
+	if ok, _ := d.latencyPreconditionOK(p.H/10 + 1); !ok {
+		d.skip("C10", "latency-precondition")
+		return
+	}
+	tl := d.liveTimeline("g1")
+	slack := 2*(p.Store.Req[1]+p.Store.Resp[1]) + time.Millisecond
+	var claims []*ClaimEvt
+	for _, c := range d.h.Claims {
+		if c.Edge && c.Val {
+			claims = append(claims, c)
+		}
+	}
+	maxTk := 0
+	for _, in := range d.insts {
+		if in.cfg.Takeover && in.cfg.Prio > maxTk && len(in.objs) > 0 {
+			maxTk = in.cfg.Prio
+		}
+	}
+	for _, y := range d.insts {
+		if !y.cfg.Takeover || len(y.objs) == 0 {
+			continue
+		}
+		// maximal stretches during which the live record's stored priority is below y's
+		var s0 time.Duration = -1
+		flush := func(end time.Duration) {
+			if s0 < 0 {
+				return
+			}
+			s := s0
+			if y.startedAt > s {
+				s = y.startedAt
+			}
+			s0 = -1
+			if s >= end || s+3*p.H+slack >= d.endAt {
+				return
+			}
+			d.judgedInc("C10")
+			ok := false
+			for _, c := range claims {
+				if d.insts[c.Inst].cfg.Prio >= y.cfg.Prio && c.T >= s && c.T <= s+3*p.H+slack+d.stallIn(c.Inst, s, s+3*p.H+slack) {
+					ok = true
+				}
+			}
+			if !ok {
+				d.h.violate("C10", "takeover-not-within-3H", fmt.Sprintf("i%d (prio %d, takeover enabled) ran next to a lower-priority leader from %v; nobody of priority >= %d became leader within 3 heartbeat intervals (%v)", y.idx, y.cfg.Prio, s, y.cfg.Prio, 3*p.H), s+3*p.H, 0)
+			}
+		}
+		var last time.Duration
+		for _, iv := range tl {
+			low := iv.v.P.OK && iv.v.P.Prio < y.cfg.Prio && iv.v.P.ID != y.cfg.ID
+			if iv.a > last && s0 >= 0 {
+				flush(last) // a gap without live record ends the stretch
+			}
+			if low {
+				if s0 < 0 {
+					s0 = iv.a
+				}
+			} else {
+				flush(iv.a)
+			}
+			last = iv.b
+		}
+		flush(last)
+	}
+	// stability: once the record's priority is maximal among the takeover-enabled instances that
+	// were started, the owner never changes again (all instances of this family start early and
+	// never stop)
+	var stableFrom time.Duration = -1
+	var owner string
+	for _, iv := range tl {
+		if !iv.v.P.OK {
+			continue
+		}
+		if stableFrom >= 0 && iv.v.P.ID != owner {
+			d.h.violate("C10", "owner-change-after-highest-priority-leads", fmt.Sprintf("record owner changed from %s to %s at %v although %s (stored prio >= %d) led since %v", owner, iv.v.P.ID, iv.a, owner, maxTk, stableFrom), iv.a, 0)
+			break
+		}
+		lateStart := false
+		for _, in := range d.insts {
+			if in.startedAt > iv.a {
+				lateStart = true
+			}
+		}
+		if stableFrom < 0 && iv.v.P.Prio >= maxTk && !lateStart {
+			stableFrom, owner = iv.a, iv.v.P.ID
+			d.judgedInc("C10")
+		}
+	}
+	d.judgeC03as("C10")
+}
+
+// ---------- C06: a vacancy is filled within a bounded time ----------
+
+// opFaultWindowsFor returns the fault windows (store operations and partitions, not watch
+// delivery faults) that cover the instance, extended by the client time-out of operations that
+// were still in flight when the window closed.
+func (d *Driver) opFaultWindowsFor(inst int) [][2]time.Duration {
+	var out [][2]time.Duration
+	for i := range d.plan.Faults {
+		f := &d.plan.Faults[i]
+		switch f.Kind {
+		case FWatchDrop, FWatchHold, FWatchDup:
+			continue
+		}
+		if f.Inst >= 0 && f.Inst != inst {
+			continue
+		}
+		to := f.To
+		if to == 0 || f.OpN > 0 {
+			to = 1 << 60
+		} else {
+			to += d.clientTimeout() + time.Second
+		}
+		out = append(out, [2]time.Duration{f.From, to})
+	}
+	return out
+}
+
+func (d *Driver) judgeC06() {
+	p := d.plan
+	lam := p.Store.Req[1] + p.Store.Resp[1]
+	terms := d.terms()
+	groups := map[string]bool{}
+	for _, in := range d.insts {
+		groups[in.cfg.Group] = true
+	}
+	for g := range groups {
+		tl := d.liveTimeline(g)
+		// vacancy intervals
+		type vac struct{ a, b time.Duration }
+		var vacs []vac
+		cur := time.Duration(0)
+		for _, iv := range tl {
+			if iv.a > cur {
+				vacs = append(vacs, vac{cur, iv.a})
+			}
+			if iv.b > cur {
+				cur = iv.b
+			}
+		}
+		if cur < d.endAt {
+			vacs = append(vacs, vac{cur, d.endAt + time.Hour})
+		}
+		for _, v := range vacs {
+			// earliest deadline over the candidates that are healthy for their whole window
+			var dl time.Duration = -1
+			var who int
+			for _, in := range d.insts {
+				if in.cfg.Group != g || len(in.objs) == 0 {
+					continue
+				}
+				// the object that runs during the vacancy: started before, not stopped/crashed until its deadline
+				for _, st := range d.h.Apis {
+					if st.Inst != in.idx || (st.Kind != AStart && st.Kind != ARestart) || st.Err != nil || st.TRet < 0 {
+						continue
+					}
+					o := d.obj(st.Inst, st.Gen)
+					if o == nil {
+						continue
+					}
+					t0 := v.a
+					if st.TRet > t0 {
+						t0 = st.TRet
+					}
+					// watch established (first watch_started log of this object after the start)
+					var wOK time.Duration = -1
+					for _, l := range d.h.Logs {
+						if l.Inst == st.Inst && l.Gen == st.Gen && l.Msg == "watch_started" && l.T >= st.TInv {
+							wOK = l.T
+							break
+						}
+					}
+					if wOK < 0 {
+						continue // never became a watching follower (e.g. it was the leader all along)
+					}
+					if wOK > t0 {
+						t0 = wOK
+					}
+					// not claiming: a deposed leader becomes a candidate at its falling edge
+					claiming := false
+					for _, t := range terms {
+						if t.Inst == st.Inst && t.Gen == st.Gen {
+							if t.Start <= t0 && (t.Fall == nil || t.End > t0) {
+								if t.Fall == nil {
+									claiming = true
+								} else {
+									t0 = t.End
+								}
+							} else if t.Fall != nil && t.End > t0 && t.Start < v.b && t.Start > t0 {
+								// became leader itself inside the window: fine, handled by the vacancy ending
+							}
+						}
+					}
+					if claiming {
+						continue
+					}
+					// fault windows: start the clock after the last one that touches [t0, ...]
+					ok := true
+					for changed := true; changed; {
+						changed = false
+						for _, w := range d.opFaultWindowsFor(in.idx) {
+							if w[0] <= t0+600*time.Millisecond+2*lam && w[1] > t0 {
+								if w[1] >= 1<<59 {
+									ok = false
+								} else {
+									t0 = w[1]
+									changed = true
+								}
+							}
+						}
+					}
+					if !ok {
+						continue
+					}
+					deadline := t0 + 500*time.Millisecond + 100*time.Millisecond + 2*lam + d.stallIn(in.idx, t0, t0+time.Second+2*lam) + time.Millisecond
+					// stopped, restarted or crashed before its deadline => not a candidate over the window
+					gone := false
+					for _, a := range d.h.Apis {
+						if a.Inst == in.idx && a.TInv > st.TInv && a.TInv <= deadline && (a.Kind == AStop || a.Kind == AStopCtx || a.Kind == ARestart || a.Kind == AStart) {
+							gone = true
+						}
+					}
+					for i := range p.Actions {
+						if a := &p.Actions[i]; a.Kind == ACrash && a.Inst == in.idx && a.OpN == 0 && a.At > st.TInv && a.At <= deadline {
+							gone = true
+						}
+					}
+					if gone || o.dead && deadline > d.endAt {
+						continue
+					}
+					if t0 >= v.b {
+						continue // the vacancy was over before this candidate's clock started
+					}
+					if dl < 0 || deadline < dl {
+						dl, who = deadline, in.idx
+					}
+				}
+			}
+			if dl < 0 || dl >= d.endAt {
+				d.skip("C06", "no-healthy-candidate-or-run-ended")
+				continue
+			}
+			d.judgedInc("C06")
+			if v.b > dl {
+				d.h.violate("C06", "vacancy-not-filled-in-time", fmt.Sprintf("group %s vacant from %v; healthy candidate i%d had to be leader by %v (500ms + 100ms + latencies) but no record was created before %v", g, v.a, who, dl, minDur(v.b, d.endAt)), dl, 0)
+			}
+		}
+	}
+	if p.Tail > 0 {
+		d.tailLeaderCheck("C06")
+	}
+}
+
+func minDur(a, b time.Duration) time.Duration {
+	if a < b {
+		return a
+	}
+	return b
+}
